@@ -815,9 +815,15 @@ class Interp:
         return out
 
     def compare(self, op, a, b, node):
+        if isinstance(op, (ast.Is, ast.IsNot)) and (
+                isinstance(a, Builtin) or isinstance(b, Builtin)):
+            r = isinstance(a, Builtin) and isinstance(b, Builtin) and \
+                a.name == b.name
+            return r if isinstance(op, ast.Is) else not r
         if isinstance(op, (ast.Is, ast.IsNot)):
             r = (a is b) or (a is None and b is None)
-            if isinstance(a, Opaque) or isinstance(b, Opaque):
+            if (isinstance(a, Opaque) and a.tag != "type") or \
+                    (isinstance(b, Opaque) and b.tag != "type"):
                 raise Unsupported("identity test on opaque value", node)
             return r if isinstance(op, ast.Is) else not r
         if isinstance(op, (ast.In, ast.NotIn)):
@@ -895,7 +901,7 @@ class Interp:
                         "list", "enumerate", "zip", "sum", "max", "min",
                         "isinstance", "hasattr", "str", "super", "slice",
                         "dict", "set", "sorted", "reversed", "bool",
-                        "getattr"):
+                        "getattr", "callable", "type", "map"):
                 return Builtin(name)
             if name in ("True", "False", "None"):
                 return {"True": True, "False": False, "None": None}[name]
@@ -1085,6 +1091,19 @@ class Interp:
             return (max if n == "max" else min)(vals)
         if n == "isinstance":
             o, t = args
+            if isinstance(t, tuple):
+                return any(self.builtin(f, [o, x], {}, node) for x in t)
+            if isinstance(t, Builtin) and t.name in (
+                    "int", "float", "str", "dict", "set", "bool", "slice"):
+                py = {"int": int, "float": (float, Fraction), "str": str,
+                      "dict": dict, "set": set, "bool": bool,
+                      "slice": slice}[t.name]
+                if t.name == "int" and isinstance(o, bool):
+                    return True
+                return isinstance(o, py)
+            if isinstance(t, ModRef) and t.name == "numpy.ndarray" and \
+                    getattr(o, "skv_isarray", False):
+                return True
             if isinstance(t, ModRef) and t.name == "numpy.ndarray":
                 # a run-time ndarray is exactly a value that depends on the
                 # point array: Poly/Rat/Arr here; Python numbers stay numbers
@@ -1112,6 +1131,19 @@ class Interp:
             return str(args[0])
         if n == "slice":
             return slice(*args)
+        if n == "type":
+            v = args[0]
+            for nm, py in (("dict", dict), ("list", list), ("tuple", tuple),
+                           ("str", str), ("int", int)):
+                if type(v) is py:
+                    return Builtin(nm)
+            return Opaque("type")
+        if n == "callable":
+            return isinstance(args[0], (Bound, Lam, PyFunc, Closure, Builtin,
+                                        ClassRef)) or \
+                getattr(args[0], "skv_callable", False)
+        if n == "map":
+            return [self.apply(args[0], [x], {}, node) for x in args[1]]
         if n == "getattr":
             try:
                 return self.getattr(args[0], args[1], node, None)
